@@ -3,6 +3,8 @@ import ast
 
 from ..core import astutil as A
 from ..core import boolx
+from ..core import match as M
+from ..core.mirror import alpha_canon, clone
 from ..core.model import dotted
 
 META = {
@@ -106,7 +108,7 @@ def run(ctx):
     ctx.floor("R1", 28)
 
     # ---- R2 raw prefix for =* ----------------------------------------------------
-    glob_ifs = [n for n in A.body_walk(fn) if isinstance(n, ast.If) and A.unparse(n.test) == "self.op == '=*'"]
+    glob_ifs = [n for n in A.body_walk(fn) if isinstance(n, ast.If) and M.pat("self.op == '=*'").matches(n.test)]
     ctx.require(glob_ifs, "atom.restrictions: no `self.op == '=*'` arm")
     arm = glob_ifs[0].body
     raw = [c for s in arm for c in A.calls(s) if (dotted(c.func) or "").split(".")[-1] in ("StrGlobMatch",) or A.call_attr(c) == "startswith"]
@@ -185,35 +187,74 @@ def run(ctx):
                 ctx.require(False, f"{f.qual}: containment built from neither false_use nor true_use")
         ps = f.params()
         ctx.check("R3", f, ps.index("false_use") < ps.index("true_use"), "param-order", f"{f.qual} takes (false_use, true_use) in that order")
-    # (b) decision table of _parse_nontransitive_use
+    # (b) decision table of _parse_nontransitive_use.  The three buckets are local variables: they are identified by
+    # their ROLE (what is finally built from them), never by their spelling.
     pn = P.func("pkgcore.ebuild.restricts", "_parse_nontransitive_use")
     loop = [n for n in pn.node.body if isinstance(n, ast.For)]
     ctx.require(loop, "_parse_nontransitive_use: token loop not found")
     lp = loop[0]
-    tok = A.unparse(lp.target)
+    ctx.require(isinstance(lp.target, ast.Name), "_parse_nontransitive_use: the token loop variable is not a plain name")
+    tok = lp.target.id
+    sc = [c for c in A.calls(pn.node) if dotted(c.func) == "StaticUseDep"]
+    m_plain = M.pat("StaticUseDep(*$normal)").matches(sc[0]) if len(sc) == 1 else None
+    ctx.check("R3", pn, m_plain is not None, "static-call", "plain flags build StaticUseDep(*<plain bucket>)")
+    ud = [c for c in A.calls(pn.node) if dotted(c.func) == "UseDepDefault"]
+    m_on = [m for m in (M.pat("UseDepDefault(True, *$on)").matches(c) for c in ud) if m]
+    m_off = [m for m in (M.pat("UseDepDefault(False, *$off)").matches(c) for c in ud) if m]
+    udcalls = [[A.unparse(a) for a in c.args] for c in ud]
+    ctx.check("R3", pn, len(ud) == 2 and len(m_on) == 1 and len(m_off) == 1, "default-calls",
+              "defaults build UseDepDefault(False, *<default-off bucket>) and UseDepDefault(True, *<default-on bucket>)", f"UseDepDefault calls are {udcalls}")
+    # what is handed to the constructors is the bucket filled by the loop, possibly frozen slot by slot in between
+    E = {"tok": tok}
+    bucket_ok, bucket_why = True, []
+    for role, mm in (("normal", m_plain), ("on", m_on[0] if len(m_on) == 1 else None), ("off", m_off[0] if len(m_off) == 1 else None)):
+        if mm is None:
+            continue  # reported above; the routing patterns below then accept any name in that role
+        final = mm[role]
+        src = final
+        for a in [x for x in M.find(pn.node, "$b = $_", {"b": final}) if x.node.lineno > lp.end_lineno]:
+            fz = M.pat("$b = (tuple($src[0]), tuple($src[1]))").matches(a.node, {"b": final})
+            if fz is None:
+                bucket_ok = False
+                bucket_why.append(f"`{A.unparse(a.node)}` does not keep (disabled, enabled) slot by slot")
+            else:
+                src = fz["src"]
+        init = [x for x in M.find(pn.node, "$b = [[], []]", {"b": src}) if x.node.lineno < lp.lineno]
+        if len(init) != 1:
+            bucket_ok = False
+            bucket_why.append(f"`{src}` is not initialised once as a fresh pair of lists before the loop")
+        E[role] = src
+    roles = [E[k] for k in ("normal", "on", "off") if k in E]
+    if len(set(roles)) != len(roles):
+        bucket_ok = False
+        bucket_why.append(f"the plain/default-on/default-off buckets are not three different variables ({roles})")
+    ctx.check("R3", pn, bucket_ok, "buckets", "each of the three buckets starts as its own [[], []] and reaches its constructor with slot 0 (disabled) and slot 1 (enabled) in place",
+              "_parse_nontransitive_use: " + "; ".join(bucket_why))
     ifs = [n for n in ast.walk(lp) if isinstance(n, ast.If)]
-    plus = [i for i in ifs if A.unparse(i.test) == f"{tok}[-2] == '+'"]
-    ctx.require(plus, "_parse_nontransitive_use: '(+)' test not found")
-    tb = A.unparse(plus[0].body[0]) if plus[0].body else ""
-    fb = A.unparse(plus[0].orelse[0]) if plus[0].orelse else ""
-    ctx.check("R3", pn, tb.endswith("default_on") and fb.endswith("default_off"), "suffix-routing", "(+) routes to the default-on bucket, (-) to default-off", node=plus[0])
-    dflt = [i for i in ifs if A.unparse(i.test) == f"{tok}[-1] == ')'"]
+    dflt = [i for i in ifs if M.pat("$tok[-1] == ')'").matches(i.test, E)]
     ctx.require(dflt, "_parse_nontransitive_use: ')' test not found")
-    ctx.check("R3", pn, any("normal" in A.unparse(s) for s in dflt[0].orelse), "plain-routing", "a flag without a default suffix goes to the plain bucket", node=dflt[0])
-    strip = [a for s in dflt[0].body for a in ast.walk(s) if isinstance(a, ast.Assign) and A.unparse(a.targets[0]) == tok]
-    ctx.check("R3", pn, bool(strip) and A.unparse(strip[0].value) == f"{tok}[:-3]", "suffix-strip", "the three-character (+)/(-) suffix is stripped", node=dflt[0])
-    sign = [i for i in ifs if A.unparse(i.test) == f"{tok}[0] == '-'"]
+    plus = [i for i in ifs if M.pat("$tok[-2] == '+'").matches(i.test, E)]
+    ctx.require(plus, "_parse_nontransitive_use: '(+)' test not found")
+    sign = [i for i in ifs if M.pat("$tok[0] == '-'").matches(i.test, E)]
     ctx.require(sign, "_parse_nontransitive_use: sign test not found")
-    sb, so = A.unparse(sign[0].body[0]), A.unparse(sign[0].orelse[0]) if sign[0].orelse else ""
-    ctx.check("R3", pn, "[0].append" in sb and f"{tok}[1:]" in sb and "[1].append" in so and f"({tok})" in so, "sign-routing",
+    nested = any(s_ is plus[0] or A.contains_node(s_, plus[0]) for s_ in dflt[0].body)
+    sr = M.pat("if $tok[-2] == '+':\n    $trg = $on\nelse:\n    $trg = $off").matches(plus[0], E)
+    once = sr is not None and len(M.find(plus[0].body, "$trg = $_", sr.env)) == 1 and len(M.find(plus[0].orelse, "$trg = $_", sr.env)) == 1
+    ctx.check("R3", pn, nested and once, "suffix-routing", "(+) routes to the default-on bucket, (-) to default-off", node=plus[0])
+    if sr is not None:
+        E = dict(sr.env)
+    pr_ = M.pat("if $tok[-1] == ')':\n    ...\nelse:\n    $trg = $normal").matches(dflt[0], E)
+    ctx.check("R3", pn, pr_ is not None and len(M.find(dflt[0].orelse, "$trg = $_", pr_.env)) == 1, "plain-routing", "a flag without a default suffix goes to the plain bucket", node=dflt[0])
+    if pr_ is not None:
+        E = dict(pr_.env)
+    # the suffix is looked at before it is cut off, and cut off before the sign is looked at
+    strip = M.pat("if $tok[-1] == ')':\n    if $tok[-2] == '+':\n        ...\n    $tok = $tok[:-3]").matches(dflt[0], E)
+    restore = [x for x in M.find(dflt[0].body, "$tok = $_", E) if not M.pat("$tok = $tok[:-3]").matches(x.node, E)]
+    ctx.check("R3", pn, strip is not None and not restore, "suffix-strip", "the three-character (+)/(-) suffix is stripped", node=dflt[0])
+    sg_ = M.pat("if $tok[0] == '-':\n    $trg[0].append($tok[1:])\nelse:\n    $trg[1].append($tok)").matches(sign[0], E)
+    ctx.check("R3", pn, sg_ is not None and sign[0] in lp.body and sign[0].lineno > dflt[0].end_lineno, "sign-routing",
               "'-flag' goes to slot 0 (disabled) without its sign, 'flag' to slot 1 (enabled)", node=sign[0])
-    calls = {(dotted(c.func) or ""): [A.unparse(a) for a in c.args] for c in A.calls(pn.node)}
-    ctx.check("R3", pn, calls.get("StaticUseDep") == ["*normal"], "static-call", "plain flags build StaticUseDep(*normal)")
-    udcalls = [[A.unparse(a) for a in c.args] for c in A.calls(pn.node) if dotted(c.func) == "UseDepDefault"]
-    ctx.check("R3", pn, sorted(udcalls) == sorted([["False", "*default_off"], ["True", "*default_on"]]), "default-calls",
-              "defaults build UseDepDefault(False, *default_off) and UseDepDefault(True, *default_on)", f"UseDepDefault calls are {udcalls}")
     # (c) sibling agreement of _UseDepDefaultContainment.match / force_True / force_False (modulo local names)
-    from ..core.mirror import alpha_canon
     UDC = P.cls("pkgcore.ebuild.restricts", "_UseDepDefaultContainment")
     forms = {}
     for name in ("match", "force_True", "force_False"):
@@ -223,6 +264,12 @@ def run(ctx):
         ctx.check("R3", m, deleg and all(c.func.attr == name for c in deleg), f"delegates-same:{name}", f"{name} delegates to ContainmentMatch.{name}", node=m.node)
         # normalise: the delegation call (whatever its extra arguments) becomes <delegate>(override?)
         class _D(ast.NodeTransformer):
+            def visit_Expr(self, node):
+                # a bare constant or a logging line is not part of the case split
+                if isinstance(node.value, ast.Constant) or (isinstance(node.value, ast.Call) and (dotted(node.value.func) or "").startswith(("logger.", "logging."))):
+                    return ast.Pass()
+                return self.generic_visit(node)
+
             def visit_Call(self, node):
                 self.generic_visit(node)
                 if isinstance(node.func, ast.Attribute) and node.func.attr == name and "ContainmentMatch" in A.unparse(node.func.value):
@@ -231,8 +278,13 @@ def run(ctx):
                     names = sorted({x.id for a in ov for x in ast.walk(a) if isinstance(x, ast.Name)} - set(m.params()) | {x.id for k in node.keywords if k.arg == "_values_override" for x in ast.walk(k.value) if isinstance(x, ast.Name)})
                     return ast.Call(func=ast.Name(id="DELEGATE", ctx=ast.Load()), args=[ast.Name(id=n_, ctx=ast.Load()) for n_ in names], keywords=[])
                 return node
-        from ..core.mirror import clone
         body = [_D().visit(clone(st)) for st in m.node.body]
+        for holder in [h for st in body for h in ast.walk(st)]:
+            for fld in ("body", "orelse", "finalbody"):
+                sts = getattr(holder, fld, None)
+                if isinstance(sts, list) and any(isinstance(x, ast.Pass) for x in sts):
+                    setattr(holder, fld, [x for x in sts if not isinstance(x, ast.Pass)] or ([ast.Pass()] if fld == "body" else []))
+        body = [st for st in body if not isinstance(st, ast.Pass)]
         fake = ast.FunctionDef(name=name, args=ast.arguments(posonlyargs=[], args=[ast.arg(arg="self"), ast.arg(arg="val")], kwonlyargs=[], kw_defaults=[], defaults=[]), body=body, decorator_list=[])
         forms[name] = alpha_canon(fake)
     ref = forms["match"]
